@@ -137,3 +137,53 @@ def check_c13(tier, replay=None):
                                   'compared with the predicted document')
     rep.assumptions = ['TLC 1.8; harness render/project; md5 and the regex engine of the Python standard library as redaction oracles']
     return rep.finish()
+
+
+# ---------------------------------------------------------------------------- C07
+EVOLVE_INVS = ['Forward', 'StrictExact', 'Backward', 'ViewIdentity', 'BStillValid']
+
+
+def check_c07(tier, replay=None):
+    if replay:
+        from wirecheck import EvolveJudge
+        with open(replay) as f:
+            payload = json.load(f)
+        if 'vector' not in payload:
+            print('replay file has no vector (model-level violation): rerun the check')
+            return 2
+        ctx = payload['vector']
+        rep = Report('C07', 'quick')
+        j = EvolveJudge({})
+        j.on_vec('VEC', {'phase': 'schema', 'edits': ctx['vector']['edits'], 'specA': ctx['specA'],
+                         'specB': ctx['specB'], 'ren': ctx['ren']})
+        j.on_vec('VEC', ctx['vector'])
+        j.finish()
+        rep.states = rep.transitions = 1
+        rep.add_judged({'judged': j.judged, 'violations': j.violations, 'samples': j.samples,
+                        'skipped': j.skipped, 'kinds': j.kinds})
+        return rep.finish()
+    rep = Report('C07', tier)
+    res = run_shards('StoneEvolveMC',
+                     lambda s: dict(spec='Spec', constants={'Shard': s, 'NShards': 16, 'EmitVectors': True, 'MaxEdits': 1},
+                                    invariants=EVOLVE_INVS, constraints=['Emit', 'InShard']),
+                     list(range(16)), 'wirecheck.EvolveJudge', {}, tlc_kwargs={'timeout': 3000})
+    agg = merge(res)
+    rep.add_tlc('StoneEvolveMC/1-edit', agg, {'MaxEdits': 1})
+    rep.add_judged(agg)
+    if tier == 'thorough':
+        # 2-edit histories: the state space (all pairs of ~80 edits x values x directions) by sharded exhaustive search
+        res = run_shards('StoneEvolveMC',
+                         lambda s: dict(spec='Spec', constants={'Shard': s, 'NShards': 64, 'EmitVectors': True, 'MaxEdits': 2},
+                                        invariants=EVOLVE_INVS, constraints=['Emit', 'InShard']),
+                         list(range(64)), 'wirecheck.EvolveJudge', {}, tlc_kwargs={'timeout': 7000, 'heap': '3g'})
+        agg = merge(res)
+        rep.add_tlc('StoneEvolveMC/2-edit', agg, {'MaxEdits': 2})
+        rep.add_judged(agg)
+    rep.exhaustive = True
+    rep.coverage_extra['rule'] = ('every history of 1 (thorough: 2) backwards-compatible edits (add optional / defaulted field at '
+                                  'every struct incl. parents, subtypes, union members, list elements, map values; add tag to every open '
+                                  'union with every member kind; give each Void tag each of 7 types; add a subtype under the catch-all; '
+                                  'rename struct/union/alias; introduce / inline an alias; add a route) x every root type x '
+                                  'boundary-biased values of the sender version x both directions x {strict, lenient}')
+    rep.assumptions = ['TLC 1.8; harness render/project; View/Lossy/Lift are the formalisation of docs/evolve_spec.rst']
+    return rep.finish()
